@@ -23,7 +23,7 @@ def confirm(n):
     with cf.ThreadPoolExecutor(4) as ex:
         for p, ok, last in ex.map(one, todo):
             print(p, "confirmed" if ok else "NOT CONFIRMED", last, flush=True)
-    for p in IDS:
+    for p in todo:   # only the delivered ones: an agent may still be at work in the others
         subprocess.call(["git", "-C", "/repo", "worktree", "remove", "--force", os.path.join(d, p)], stdout=subprocess.DEVNULL, stderr=subprocess.DEVNULL)
     subprocess.call(["git", "-C", "/repo", "worktree", "prune"])
     print("kept:", len(glob.glob(os.path.join(VERIF, "seeded", "C*-%s" % n))))
